@@ -283,6 +283,22 @@ func (s Seq) Bits() []uint8 {
 				out[i] = 1
 			}
 		}
+	case "bytepat": // Hex pattern bytes repeated
+		pat, _ := hex.DecodeString(s.Hex)
+		if len(pat) == 0 {
+			pat = []byte{0}
+		}
+		for i := range out {
+			out[i] = (pat[(i/8)%len(pat)] >> (7 - uint(i%8))) & 1
+		}
+	case "onebit": // zeros with a single one at position B (B<0: from the end)
+		p := s.B
+		if p < 0 {
+			p = n + p
+		}
+		if p >= 0 && p < n {
+			out[p] = 1
+		}
 	case "transition": // zeros then ones, switch at B
 		for i := s.B; i < n; i++ {
 			out[i] = 1
